@@ -12,14 +12,18 @@ EXTENDS Integers, Sequences, FiniteSets, TLC
 CONSTANTS NC, NT
 Cs == 1..NC
 Ts == 1..NT
+Ls == 1..2          \* listeners (object ids 11, 12 in poll events)
+Es == 1..2          \* establishers (object ids 21, 22)
 InitT == [alive |-> FALSE, due |-> 0, iv |-> 0]
 InitCl == [alive |-> FALSE, susp |-> FALSE, closing |-> FALSE, pclosed |-> FALSE]
-Init0 == [tm |-> [t \in Ts |-> InitT], cl |-> [c \in Cs |-> InitCl], oblig |-> {}, irq |-> FALSE, wake |-> FALSE, inrun |-> FALSE]
+Init0 == [tm |-> [t \in Ts |-> InitT], cl |-> [c \in Cs |-> InitCl], ls |-> [x \in Ls |-> FALSE], es |-> [x \in Es |-> FALSE], oblig |-> {}, irq |-> FALSE, wake |-> FALSE, inrun |-> FALSE]
 
 \* the operating system reports hang-up even for event kinds a socket is not registered for: a reported kind is
 \* an obligation only if the client is registered for it (kind bit 2 = writable is only reported when registered;
 \* kind bit 1 = readable/hang-up counts only while the client is not suspended)
-Registered(s, r) == r[1] \in Cs /\ s.cl[r[1]].alive /\ (r[2] \in {2, 3} \/ ~s.cl[r[1]].susp)
+Registered(s, r) == \/ r[1] \in Cs /\ s.cl[r[1]].alive /\ (r[2] \in {2, 3} \/ ~s.cl[r[1]].susp)
+                    \/ r[1] - 10 \in Ls /\ s.ls[r[1] - 10]           \* a registered listener with a connection to accept
+                    \/ r[1] - 20 \in Es /\ s.es[r[1] - 20]           \* a registered establisher whose connect finished
 Discharge(s, c) == [s EXCEPT !.oblig = { o \in @ : o[1] # c }]
 MustReturn(s) == s.wake                 \* after the interrupt was polled nothing but the return of run() may happen
 
@@ -33,6 +37,16 @@ Step(ev, s) ==
             /\ x.due <= ev.now
             /\ \A u \in Ts : s.tm[u].alive => s.tm[u].due >= x.due
          THEN { [s EXCEPT !.tm[ev.t].due = x.due + x.iv] } ELSE {}
+    \* listeners and establishers: callbacks only while registered (never after remove), acceptance creates a client
+    [] ev.op = "listen" -> { IF ev.ok THEN [s EXCEPT !.ls[ev.l] = TRUE] ELSE s }
+    [] ev.op = "rmlisten" -> { Discharge([s EXCEPT !.ls[ev.l] = FALSE], 10 + ev.l) }
+    [] ev.op = "onAccepted" -> IF s.ls[ev.l] /\ s.inrun /\ ~MustReturn(s)
+                               THEN { Discharge(IF ev.c \in Cs THEN [s EXCEPT !.cl[ev.c] = [InitCl EXCEPT !.alive = TRUE]] ELSE s, 10 + ev.l) } ELSE {}
+    [] ev.op = "conn" -> { IF ev.ok THEN [s EXCEPT !.es[ev.e] = TRUE] ELSE s }
+    [] ev.op = "rmconn" -> { Discharge([s EXCEPT !.es[ev.e] = FALSE], 20 + ev.e) }
+    [] ev.op = "onConnected" -> IF s.es[ev.e] /\ s.inrun /\ ~MustReturn(s)
+                                THEN { Discharge(IF ev.c \in Cs THEN [s EXCEPT !.cl[ev.c] = [InitCl EXCEPT !.alive = TRUE]] ELSE s, 20 + ev.e) } ELSE {}
+    [] ev.op = "onAbolished" -> IF s.es[ev.e] /\ s.inrun /\ ~MustReturn(s) THEN { Discharge(s, 20 + ev.e) } ELSE {}
     [] ev.op = "pair" -> IF ev.ok THEN { [s EXCEPT !.cl[ev.c] = [InitCl EXCEPT !.alive = TRUE]] } ELSE { s }
     [] ev.op = "remove" -> { Discharge([s EXCEPT !.cl[ev.c].alive = FALSE, !.cl[ev.c].closing = FALSE], ev.c) }
     [] ev.op \in {"suspend", "resume"} -> { Discharge([s EXCEPT !.cl[ev.c].susp = ev.susp], ev.c) }
@@ -44,7 +58,9 @@ Step(ev, s) ==
     \* callbacks: never for a removed client; onRead only while registered for reading (not suspended)
     [] ev.op = "onRead" ->
          IF s.cl[ev.c].alive /\ ~s.cl[ev.c].susp /\ s.inrun /\ ~MustReturn(s)
-         THEN { Discharge(IF ~ev.noread /\ ~ev.r /\ s.cl[ev.c].pclosed THEN [s EXCEPT !.cl[ev.c].closing = TRUE] ELSE s, ev.c) }
+         \* a read that fails because the stream has ended or failed (the kernel's view is logged as peek) must be
+         \* followed by onClosed
+         THEN { Discharge(IF ~ev.noread /\ ~ev.r /\ ev.peek \in {0, -2} THEN [s EXCEPT !.cl[ev.c].closing = TRUE] ELSE s, ev.c) }
          ELSE {}
     [] ev.op = "onWrite" -> IF s.cl[ev.c].alive /\ s.inrun /\ ~MustReturn(s) THEN { Discharge(s, ev.c) } ELSE {}
     [] ev.op = "onClosed" -> IF s.cl[ev.c].alive /\ s.cl[ev.c].closing /\ s.inrun /\ ~MustReturn(s)
